@@ -34,7 +34,10 @@ IsRef(v)   == v >= 100
 RefId(v)   == v - 100
 Addressable(v) == v = 3
 
-EmptyScope(p) == [par |-> p, v |-> [n \in {} |-> 0], t |-> [n \in {} |-> 0], x |-> FALSE]
+\* va / ta: the scope's value / type table has been allocated (tables are created lazily by the first define and stay allocated
+\* when emptied again; a copy has a table exactly where its source has one).  Not observable through the API -- the projection
+\* ignores them -- but part of the state, so that the exploration distinguishes "never written" from "written and emptied".
+EmptyScope(p) == [par |-> p, v |-> [n \in {} |-> 0], t |-> [n \in {} |-> 0], x |-> FALSE, va |-> FALSE, ta |-> FALSE]
 Has(f, n)  == n \in DOMAIN f
 Put(f, n, v) == [m \in DOMAIN f \cup {n} |-> IF m = n THEN v ELSE f[m]]
 Del(f, n)  == [m \in DOMAIN f \ {n} |-> f[m]]
@@ -67,7 +70,7 @@ Same(sc, res) == [sc |-> sc, res |-> res]
 
 Define(sc, s, n, v) ==
   IF n \in Dotted THEN Same(sc, Err)
-  ELSE [sc |-> [sc EXCEPT ![s].v = Put(@, n, v)], res |-> OK]
+  ELSE [sc |-> [sc EXCEPT ![s].v = Put(@, n, v), ![s].va = TRUE], res |-> OK]
 
 DefineGlobal(sc, s, n, v) == Define(sc, Root(sc, s), n, v)
 
@@ -88,7 +91,7 @@ DeleteNearest(sc, s, n) ==
 
 DefineType(sc, s, n, t) ==
   IF n \in Dotted THEN Same(sc, Err)
-  ELSE [sc |-> [sc EXCEPT ![s].t = Put(@, n, t)], res |-> OK]
+  ELSE [sc |-> [sc EXCEPT ![s].t = Put(@, n, t), ![s].ta = TRUE], res |-> OK]
 
 DefineGlobalType(sc, s, n, t) == DefineType(sc, Root(sc, s), n, t)
 
@@ -106,7 +109,7 @@ NewModule(sc, s, n) ==
   LET h  == Len(sc) + 1
       s1 == Append(sc, EmptyScope(s)) IN
   IF n \in Dotted THEN [sc |-> s1, res |-> EnvErrR(h)]
-  ELSE [sc |-> [s1 EXCEPT ![s].v = Put(@, n, EnvRef(h))], res |-> EnvR(h)]
+  ELSE [sc |-> [s1 EXCEPT ![s].v = Put(@, n, EnvRef(h)), ![s].va = TRUE], res |-> EnvR(h)]
 
 \* GetEnvFromPath: the first element is resolved to the nearest enclosing binding that IS a module
 \* (bindings of that name that are not modules are passed over); the rest only in own tables.
